@@ -69,7 +69,8 @@ OpsOf(cls, s) ==
                                             wc[1]), wc[2]) : wc \in {RandomElement(WrapCombos)}}
     [] cls = "Submit"     -> {v \in {SubRand(i, Muts) : i \in 1..6} : v \in SubmitOps}
     [] cls = "SubmitWin"  -> {v \in {SubRand(i, {"none"}) : i \in 1..6} : v \in SubmitOps}
-    [] cls = "CreateRequest" -> {[op |-> "CreateRequest", k |-> "fresh", e |-> "fresh", n |-> "fresh", s |-> NONE]}
+    [] cls = "CreateRequest" -> {[op |-> "CreateRequest", k |-> "fresh", e |-> "fresh", n |-> "fresh", s |-> NONE,
+                                  flow |-> RandomElement({"plain", "plain", "wrap"}), again |-> RandomElement({FALSE, FALSE, TRUE})]}
     [] cls = "GenCerts"   -> {GenRand(i, CertKeys \cup {NONE, "kx"}) : i \in 1..3}
     [] cls = "GenNear"    -> IF Present(s) = {} THEN {} ELSE
                                {[GenRand(i, Present(s)) EXCEPT !.skip = FALSE] : i \in 1..3}
